@@ -39,7 +39,23 @@ class _QuietNSE(NetworkServiceElement):
 
 class DevApp(ApplicationIOController, WhoIsIAmServices, ReadWritePropertyServices, ReadWritePropertyMultipleServices,
              ChangeOfValueServices, DeviceCommunicationControlServices, FileServices):
-    pass
+
+    def do_ConfirmedPrivateTransferRequest(self, apdu):
+        """A vendor service whose outcome the application decides: acknowledgement, abort raised as an exception, abort
+        handed over as a PDU, reject, error (service number 1..5)."""
+        from bacpypes.apdu import ConfirmedPrivateTransferACK, AbortPDU
+        from bacpypes.errors import AbortBufferOverflow, RejectBufferOverflow, ExecutionError
+        n = apdu.serviceNumber
+        if n == 2:
+            raise AbortBufferOverflow()
+        if n == 3:
+            self.response(AbortPDU(True, reason=9, context=apdu))
+            return
+        if n == 4:
+            raise RejectBufferOverflow()
+        if n == 5:
+            raise ExecutionError(errorClass="services", errorCode="serviceRequestDenied")
+        self.response(ConfirmedPrivateTransferACK(vendorID=apdu.vendorID, serviceNumber=n, context=apdu))
 
 
 @register_object_type(vendor_id=999)
